@@ -39,6 +39,7 @@ type Case struct {
 	Damage      []scen.Damage   `json:"damage"`
 	G           int             `json:"g"`
 	DoubleCheck bool            `json:"double_check"`
+	Decoys      bool            `json:"decoys,omitempty"` // entries beside the index that start with "<base>." but do not end in ".par2"
 }
 
 func xs(s *uint64) uint64 {
@@ -164,6 +165,14 @@ func runLayout(c Case, canonical, ownWriter bool) (outcome, map[string][]byte, m
 		}
 	} else {
 		layout(dir, c, set, canonical)
+	}
+	if c.Decoys {
+		// not recovery files (they do not match <base>.*.par2), but they sort between and before the real ones
+		for _, n := range []string{".payload.bin", ".0000-notes.txt", ".a.par2.bak", ".vol00+01.par2.bak", ".w.par2~", ".zzz.par2.tmp"} {
+			os.WriteFile(filepath.Join(dir, c.Base+n), []byte("decoy beside the index: "+n), 0o644)
+		}
+		os.MkdirAll(filepath.Join(dir, c.Base+".extracted"), 0o755)
+		os.WriteFile(filepath.Join(dir, c.Base+".extracted", "inner.par2"), []byte("inside a decoy directory"), 0o644)
 	}
 	state := map[string][]byte{}
 	for n, d := range orig {
@@ -348,7 +357,7 @@ func volNames(c Case) []string {
 	return out
 }
 
-var bases = []string{"set", "my set", "a.b", "arch[1]", "x]y", "what?", "st*r", `back\slash`, "{brace}", "ünï", "vol00+01", "dash-_~#"}
+var bases = []string{"set", "my set", ".hid", "", ".", "..", "a.b", "arch[1]", "x]y", "what?", "st*r", `back\slash`, "{brace}", "ünï", "vol00+01", "dash-_~#"}
 var suffixes = []string{"vol00+01", "vol000+001", "anything", "with space", "[br]", "st*r", "q?", "UPPER", "v.o.l", "ünï", "1", "vol7+3", `b\s`}
 
 func gen(t *rapid.T) Case {
@@ -422,6 +431,7 @@ func gen(t *rapid.T) Case {
 	}
 	c.G = rapid.IntRange(1, 4).Draw(t, "g")
 	c.DoubleCheck = rapid.Bool().Draw(t, "dc")
+	c.Decoys = rapid.IntRange(0, 2).Draw(t, "decoys") == 0
 	return c
 }
 
